@@ -47,5 +47,6 @@ c.returns(('obj', 'kmip.core.utils.BytearrayStream', {'buffer': 'bytes'}))
 
 c = contract(K + "write").props('C19')
 c.args(self=PROTO, data='bytes')
+c.modifies("self.socket.sent")
 c.trace("sends-the-data-once",
         lambda ev, outcome, exc: True if len([e for e in ev if e[0] == 'send']) <= 1 else "sent twice")
